@@ -73,20 +73,73 @@ def ossl(cipher, key, iv, data, decrypt=False):
     return p.stdout
 
 
+class Raw:
+    """Objects handed back by the library (role "res"), fresh mutable argument objects handed to it ("arg"), or earlier
+    results passed on as arguments ("fwd") - kept AS THE OBJECTS THEMSELVES until the whole history is over.  Rec.settle()
+    converts them (several objects = their concatenation), so a result that a LATER call overwrites is recorded as it is
+    then, and notes when two results, or a result and an argument, are one and the same mutable object."""
+    __slots__ = ("objs", "role")
+
+    def __init__(self, role, *objs):
+        self.role, self.objs = role, objs
+
+
+IMMUTABLE = (bytes, str, tuple, int, type(None), frozenset)
+
+
+def rlen(x):
+    try:
+        return len(x)
+    except Exception:                                              # noqa
+        return 0
+
+
+def byteslike(x):
+    return isinstance(x, (bytes, bytearray, list, tuple))
+
+
 class Rec:
     def __init__(self):
-        self.evs, self.tid, self.grp = [], 0, 0
+        self.evs, self.tid, self.grp, self.pending = [], 0, 0, []
 
     def add(self, ev, cost=1):
         self.tid += 1
         ev["tid"] = self.tid
         ev["_cost"] = max(1, cost)
         self.evs.append(ev)
+        if any(isinstance(v, Raw) for v in ev.values()):
+            self.pending.append(ev)
         return ev
+
+    def settle(self):
+        """End of a history: convert every retained object now; alias = 1 on events whose result object is shared."""
+        settle_events(self.pending)
+        self.pending = []
 
     def newgrp(self):
         self.grp += 1
         return self.grp
+
+
+def settle_events(pending):
+    if True:
+        seen = {}                                                    # id -> [(event, role)]
+        for ev in pending:
+            for v in ev.values():
+                if isinstance(v, Raw) and v.role in ("res", "arg"):
+                    for o in v.objs:
+                        if not isinstance(o, IMMUTABLE):
+                            seen.setdefault(id(o), []).append((ev, v.role))
+        for uses in seen.values():
+            if len(uses) > 1 and any(role == "res" for _, role in uses):
+                for ev, _ in uses:
+                    if "alias" in ev:
+                        ev["alias"] = 1
+        for ev in pending:
+            for k, v in list(ev.items()):
+                if isinstance(v, Raw):
+                    parts = [BL(o) for o in v.objs]
+                    ev[k] = [-1] if any(p == [-1] for p in parts) else [b for p in parts for b in p]
 
 
 def BL(x):
@@ -97,6 +150,28 @@ def BL(x):
         return v if all(0 <= b < 256 for b in v) else [-1]
     except Exception:                                              # noqa
         return [-1]
+
+
+def built(x):
+    """An object EQUAL to the option value x but created at run time (never the interned literal / module constant): a
+    library must compare options by value.  str: joined from its characters; int: parsed from its digits; bytes: copied."""
+    if isinstance(x, str):
+        return "".join(list(x))
+    if isinstance(x, bool) or x is None:
+        return x
+    if isinstance(x, int):
+        return int(str(x))
+    if isinstance(x, bytes):
+        return bytes(bytearray(x))
+    return x
+
+
+PAD_CONST = {"none": "PADDING_NONE", "default": "PADDING_DEFAULT"}
+
+
+def pad_option(bf, padding, form):
+    """form "const": the module constant blockfeeder.PADDING_*; "built": an equal string object made at run time."""
+    return getattr(bf, PAD_CONST[padding], padding) if form == "const" else built(padding)
 
 
 def rb(r, n):
@@ -143,35 +218,55 @@ def record_cipher(rec, rep, r, tier, pool):
         cases += [(rb(r, ks), rb(r, 16)) for _ in range(n)]
         cases += [(rb(r, ks), bytes([r.choice([0, 255])] * 16)) for _ in range(4)]
 
-    def safe(fn):
-        try:
-            return BL(fn())
-        except Exception:                                          # noqa: a raising cipher gives an event TLC rejects
-            return [-1]
+    hist = [0]
 
-    for key, pt in cases:
-        same = r.random() < 0.5
-        as_list = r.random() < 0.5
-        ct = safe(lambda: AES(key).encrypt(list(pt) if as_list else pt))   # bytes or list of ints, both are used by the modes
-        dt = safe(lambda: AES(key).decrypt(ct if same else bytes(ct)))
-        rec.add({"op": "blk", "key": list(key), "pt": list(pt), "ct": ct, "dt": dt}, cost=12)
+    def history(key, pts, one_object, decrypt_only=False):
+        """Several blocks through ONE cipher object (or a fresh one per call): all encrypt calls, then all decrypt calls
+        (each fed with the very object encrypt returned), and only then is anything converted or recorded."""
+        hist[0] += 1
+
+        def obj():
+            try:
+                return AES(built(key) if hist[0] % 2 else key)
+            except Exception:                                      # noqa: every call on None raises -> [-1] -> rejected
+                return None
+        a = obj()
+        cs, args = [], []
+        if not decrypt_only:
+            for pt in pts:
+                arg = list(pt) if r.random() < 0.5 else pt           # bytes or list of ints, both are used by the modes
+                args.append(arg)
+                try:
+                    cs.append((a if one_object else obj()).encrypt(arg))
+                except Exception:                                  # noqa
+                    cs.append(None)
+        else:
+            cs = args = [list(x) if r.random() < 0.5 else x for x in pts]
+        ds = []
+        for c in cs:
+            try:
+                ds.append((a if one_object else obj()).decrypt(c))
+            except Exception:                                      # noqa
+                ds.append(None)
+        for j, pt in enumerate(pts):
+            if decrypt_only:
+                rec.add({"op": "dblk", "key": list(key), "ct": list(pt), "arg": Raw("arg", args[j]), "pt": Raw("res", ds[j]), "alias": 0,
+                         "hist": hist[0], "one": int(one_object)}, cost=12)
+            else:
+                rec.add({"op": "blk", "key": list(key), "pt": list(pt), "arg": Raw("arg", args[j]), "ct": Raw("res", cs[j]), "dt": Raw("res", ds[j]),
+                         "alias": 0, "hist": hist[0], "one": int(one_object)}, cost=12)
+        rec.settle()
+
+    for j, (key, pt) in enumerate(cases):
+        history(key, [pt, rb(r, 16)] if j % 2 else [pt], one_object=(j % 4 != 3))
     # the same (key, block) again on ONE cipher object after it has processed other blocks: a block result never
-    # depends on what the object did before
+    # depends on what the object did before or does afterwards
     for ks in (16, 24, 32):
-        key = rb(r, ks)
-        try:
-            a = AES(key)
-        except Exception:                                          # noqa
-            a = None
         todo = [rb(r, 16) for _ in range(4)]
-        for pt in todo + todo[::-1]:
-            ct = safe(lambda: a.encrypt(pt))
-            dt = safe(lambda: a.decrypt(bytes(ct)))
-            rec.add({"op": "blk", "key": list(key), "pt": list(pt), "ct": ct, "dt": dt}, cost=12)
+        history(rb(r, ks), todo + todo[::-1], one_object=True)
     for ks in (16, 24, 32):
-        for _ in range(n // 2):
-            key, ct = rb(r, ks), rb(r, 16)
-            rec.add({"op": "dblk", "key": list(key), "ct": list(ct), "pt": safe(lambda: AES(key).decrypt(ct))}, cost=12)
+        for j in range(n // 4):
+            history(rb(r, ks), [rb(r, 16), rb(r, 16)], one_object=(j % 3 != 2), decrypt_only=True)
     # oracle: AES.tla itself against OpenSSL (independent of pyaes)
     nk = 250 if tier == "thorough" else 70
     jobs = []
@@ -190,17 +285,23 @@ def record_cipher(rec, rep, r, tier, pool):
 def mk_mode(aes, mode, key, iv, seg, none_iv=False):
     """iv: 16 bytes (ctr: initial counter).  none_iv: pass None / the default counter instead (iv must then be the
     documented default: zeros, counter 1)."""
+    via_table = (len(key) + sum(iv[:2]) if iv else len(key)) % 2 == 1   # deterministic mix of both ways to name the class
+    cls = {"ecb": aes.AESModeOfOperationECB, "cbc": aes.AESModeOfOperationCBC, "cfb": aes.AESModeOfOperationCFB,
+           "ofb": aes.AESModeOfOperationOFB, "ctr": aes.AESModeOfOperationCTR}[mode]
+    if via_table:
+        cls = aes.AESModesOfOperation[built(mode)]                  # documented lookup table, key string built at run time
+        key = built(key)
     if mode == "ecb":
-        return aes.AESModeOfOperationECB(key)
+        return cls(key)
     if mode == "cbc":
-        return aes.AESModeOfOperationCBC(key, None if none_iv else iv)
+        return cls(key, None if none_iv else iv)
     if mode == "cfb":
-        return aes.AESModeOfOperationCFB(key, None if none_iv else iv, seg)
+        return cls(key, None if none_iv else iv, built(seg) if via_table else seg)
     if mode == "ofb":
-        return aes.AESModeOfOperationOFB(key, None if none_iv else iv)
+        return cls(key, None if none_iv else iv)
     if none_iv:
-        return aes.AESModeOfOperationCTR(key)
-    return aes.AESModeOfOperationCTR(key, aes.Counter(int.from_bytes(iv, "big")))
+        return cls(key)
+    return cls(key, aes.Counter(int.from_bytes(iv, "big")))
 
 
 def ossl_name(mode, key, seg):
@@ -226,9 +327,9 @@ def drive_mode(rec, r, aes, mode, key, iv, seg, direction, stream, sizes, none_i
         obj = mk_mode(aes, mode, key, iv, seg, none_iv)
     except Exception as ex:                                        # noqa: logged as a raising call of admissible size -> rejected by TLC
         rec.add({"op": "m.call", "grp": g, "dir": direction, "data": [0] * (16 * max(1, seg)), "out": [], "err": 1,
-                 "cls": "constructor:" + type(ex).__name__, "tag": tag}, cost=16)
+                 "cls": "constructor:" + type(ex).__name__, "alias": 0, "tag": tag}, cost=16)
         return g
-    pos, acc_in, acc_out = 0, b"", b""
+    pos, acc_in, kept = 0, b"", []
     for n in sizes:
         chunk = stream[pos:pos + n]
         try:
@@ -236,15 +337,16 @@ def drive_mode(rec, r, aes, mode, key, iv, seg, direction, stream, sizes, none_i
             err, cls = 0, ""
         except Exception as ex:                                    # noqa: the class is logged, the spec judges raise / no raise
             out, err, cls = b"", 1, type(ex).__name__
-        rec.add({"op": "m.call", "grp": g, "dir": direction, "data": list(chunk), "out": BL(out), "err": err, "cls": cls, "tag": tag},
+        rec.add({"op": "m.call", "grp": g, "dir": direction, "data": list(chunk), "out": Raw("res", out), "err": err, "cls": cls, "alias": 0, "tag": tag},
                 cost=aes_cost(mode, seg, len(chunk)))
-        if BL(out) == [-1]:
+        if not byteslike(out):
             break
         if not err:
             pos += len(chunk)
             acc_in += chunk
-            acc_out += bytes(out)
-    rec.add({"op": "m.end", "grp": g, "dir": direction, "stream": list(acc_in), "outs": list(acc_out), "tag": tag}, cost=aes_cost(mode, seg, len(acc_in)))
+            kept.append(out)                                         # the object itself; converted after the last call
+    rec.add({"op": "m.end", "grp": g, "dir": direction, "stream": list(acc_in), "outs": Raw("cat", *kept), "tag": tag}, cost=aes_cost(mode, seg, len(acc_in)))
+    rec.settle()
     name = ossl_name(mode, key, seg)
     if oracle_jobs is not None and name and acc_in:
         oracle_jobs.append((g, name, key, None if mode == "ecb" else iv, acc_in, direction, tag, aes_cost(mode, seg, len(acc_in))))
@@ -325,7 +427,8 @@ def valid_cipher_text(r, aes, bf, mode, key, iv, seg, total):
     return rb(r, total)
 
 
-def drive_feeder(rec, r, aes, bf, mode, seg, direction, padding, total, sizes, valid=True, post=False, tag="", key=None, iv=None, stream=None):
+def drive_feeder(rec, r, aes, bf, mode, seg, direction, padding, total, sizes, valid=True, post=False, tag="", key=None, iv=None, stream=None,
+                 padform=None):
     key = rb(r, r.choice([16, 16, 16, 24, 32])) if key is None else key
     iv = (b"" if mode == "ecb" else rb(r, 16)) if iv is None else iv
     if stream is None:
@@ -334,18 +437,20 @@ def drive_feeder(rec, r, aes, bf, mode, seg, direction, padding, total, sizes, v
         else:
             stream = rb(r, total)
     g = rec.newgrp()
-    rec.add({"op": "f.new", "grp": g, "mode": mode, "key": list(key), "iv": list(iv), "seg": seg, "dir": direction, "pad": padding, "tag": tag}, cost=2)
+    padform = padform or ("built" if g % 2 else "const")           # the option as module constant / as an equal run-time string
+    tag = (tag + "+" if tag else "") + "padding-string-built-at-run-time" if padform == "built" else tag
+    rec.add({"op": "f.new", "grp": g, "mode": mode, "key": list(key), "iv": list(iv), "seg": seg, "dir": direction, "pad": padding,
+             "padform": padform, "tag": tag}, cost=2)
     try:
-        f = (bf.Encrypter if direction == "enc" else bf.Decrypter)(mk_mode(aes, mode, key, iv, seg), padding=padding)
+        f = (bf.Encrypter if direction == "enc" else bf.Decrypter)(mk_mode(aes, mode, key, iv, seg), padding=pad_option(bf, padding, padform))
     except Exception as ex:                                        # noqa: logged as a raising feed(b"") -> rejected by TLC
-        rec.add({"op": "f.feed", "grp": g, "data": [], "fin": 0, "out": [], "err": 1, "cls": "constructor:" + type(ex).__name__, "tag": tag})
+        rec.add({"op": "f.feed", "grp": g, "data": [], "fin": 0, "out": [], "err": 1, "cls": "constructor:" + type(ex).__name__, "alias": 0, "tag": tag})
         return g
-    pos, outs, failed = 0, b"", 0
+    pos, kept, failed = 0, [], 0
 
     def call(data, fin):
         try:
-            o = f.feed(None if fin else data)
-            return (bytes(o) if BL(o) != [-1] else None), 0, ""
+            return f.feed(None if fin else data), 0, ""
         except Exception as ex:                                    # noqa
             return b"", 1, type(ex).__name__
 
@@ -353,21 +458,24 @@ def drive_feeder(rec, r, aes, bf, mode, seg, direction, padding, total, sizes, v
         chunk = stream[pos:pos + n]
         pos += n
         o, e, cls = call(chunk, 0)
-        rec.add({"op": "f.feed", "grp": g, "data": list(chunk), "fin": 0, "out": BL(o), "err": e, "cls": cls, "tag": tag}, cost=aes_cost(mode, seg, len(o or b"")))
-        if e or o is None:
+        rec.add({"op": "f.feed", "grp": g, "data": list(chunk), "fin": 0, "out": Raw("res", o), "err": e, "cls": cls, "alias": 0, "tag": tag},
+                cost=aes_cost(mode, seg, rlen(o)))
+        if e or not byteslike(o):
             failed = 1
             break
-        outs += o
+        kept.append(o)
     if not failed:
         o, e, cls = call(b"", 1)
-        rec.add({"op": "f.feed", "grp": g, "data": [], "fin": 1, "out": BL(o), "err": e, "cls": cls, "tag": tag}, cost=aes_cost(mode, seg, 32))
+        rec.add({"op": "f.feed", "grp": g, "data": [], "fin": 1, "out": Raw("res", o), "err": e, "cls": cls, "alias": 0, "tag": tag}, cost=aes_cost(mode, seg, 32))
         failed = e
-        outs += o or b""
+        if byteslike(o):
+            kept.append(o)
         if post and not e:
             for d, fin in ((b"x", 0), (b"", 1)):
                 o, e, cls = call(d, fin)
-                rec.add({"op": "f.feed", "grp": g, "data": list(d) if not fin else [], "fin": fin, "out": BL(o), "err": e, "cls": cls, "tag": tag})
-    rec.add({"op": "f.end", "grp": g, "stream": list(stream[:pos]), "outs": list(outs), "err": failed, "tag": tag}, cost=aes_cost(mode, seg, pos) + 1)
+                rec.add({"op": "f.feed", "grp": g, "data": list(d) if not fin else [], "fin": fin, "out": Raw("res", o), "err": e, "cls": cls, "alias": 0, "tag": tag})
+    rec.add({"op": "f.end", "grp": g, "stream": list(stream[:pos]), "outs": Raw("cat", *kept), "err": failed, "tag": tag}, cost=aes_cost(mode, seg, pos) + 1)
+    rec.settle()
     return g
 
 
@@ -389,8 +497,8 @@ def record_feeders(rec, r, tier, shapes):
         iv = b"" if mode == "ecb" else rb(r, 16)
         total = 24 if (mode == "cfb" and seg == 1) else 48
         stream = valid_cipher_text(r, aes, bf, mode, key, iv, seg, total) if (d == "dec" and p == "default" and mode in ("ecb", "cbc")) else rb(r, total)
-        for sizes in ([total], [1] * 17 + [total - 17], [16, 16, total - 32], [5, 0, total - 5]):
-            drive_feeder(rec, r, aes, bf, mode, seg, d, p, total, sizes, key=key, iv=iv, stream=stream, tag="revisit")
+        for j, sizes in enumerate(([total], [total], [1] * 17 + [total - 17], [16, 16, total - 32], [5, 0, total - 5])):
+            drive_feeder(rec, r, aes, bf, mode, seg, d, p, total, sizes, key=key, iv=iv, stream=stream, tag="revisit", padform=("const", "built")[j % 2])
     for c in (0, 1):
         for ks in (16, 24, 32):
             key, data = rb(r, ks), rb(r, 16)
@@ -453,21 +561,35 @@ class LoggedBytesIO(io.BytesIO):
 STREAM_BS = [1, 15, 16, 17, 8192]
 
 
-def drive_stream(rec, aes, bf, mode, seg, direction, padding, key, iv, data, bs, sizes, tag=""):
+def drive_stream(rec, aes, bf, mode, seg, direction, padding, key, iv, data, bs, sizes, tag="", padform=None):
     """encrypt_stream / decrypt_stream on an input stream holding `data`; sizes None = io.BytesIO, else a raw stream
     handing the data out in pieces of these sizes.  One event; TLC judges output and error flag against FeederSpec(data)."""
-    log, out = [], io.BytesIO()
+    log = []
     src = LoggedBytesIO(data, log) if sizes is None else ChunkedReader(data, sizes, log)
+
+    class KeepWrites:                                               # out_stream that keeps the very objects it is given
+        def __init__(self):
+            self.parts = []
+
+        def write(self, b):
+            self.parts.append(b)
+            return rlen(b)
+
+    out = KeepWrites()
+    g = rec.newgrp()
+    padform = padform or ("built" if g % 2 else "const")
+    tag = (tag + "+" if tag else "") + "padding-string-built-at-run-time" if padform == "built" else tag
     try:
         obj = mk_mode(aes, mode, key, iv, seg)
-        (bf.encrypt_stream if direction == "enc" else bf.decrypt_stream)(obj, src, out, block_size=bs, padding=padding)
+        (bf.encrypt_stream if direction == "enc" else bf.decrypt_stream)(obj, src, out, block_size=built(bs) if padform == "built" else bs,
+                                                                         padding=pad_option(bf, padding, padform))
         err, cls = 0, ""
     except Exception as ex:                                        # noqa: the spec judges raise / no raise
         err, cls = 1, type(ex).__name__
-    g = rec.newgrp()
     rec.add({"op": "s.run", "grp": g, "mode": mode, "key": list(key), "iv": list(iv), "seg": seg, "dir": direction, "pad": padding, "bs": bs,
-             "data": list(data), "reads": [list(x) for x in log], "out": list(out.getvalue()), "err": err, "cls": cls,
-             "src": "bytesio" if sizes is None else "raw", "tag": tag}, cost=2 * aes_cost(mode, seg, len(data)) + 2)
+             "data": list(data), "reads": [list(x) for x in log], "out": Raw("cat", *out.parts), "err": err, "cls": cls,
+             "src": "bytesio" if sizes is None else "raw", "padform": padform, "tag": tag}, cost=2 * aes_cost(mode, seg, len(data)) + 2)
+    rec.settle()
     return g
 
 
@@ -488,8 +610,10 @@ def record_streams(rec, r, tier, shapes):
         total = 32 if (mode == "cfb" and seg == 1) else 80
         key, iv, data = inputs(mode, seg, d, p, total)
         for sizes, bs in ((None, 8192), (None, 16), (None, 17), ([total], 8192), ([total // 2], 8192), ([3, 1, 16], 8192), ([16] * (total // 16), 16),
-                          ([], 15), ([5, 16, 1, 17, 3], 17), ([], 1), ([7, 16, 9], 16)):
+                          ([], 15), ([5, 16, 1, 17, 3], 17), ([], 1), ([7, 16, 9], 16), (None, 8192)):
             drive_stream(rec, aes, bf, mode, seg, d, p, key, iv, data, bs, sizes, tag="stream-revisit")
+        for form in ("const", "built"):
+            drive_stream(rec, aes, bf, mode, seg, d, p, key, iv, data, 16, [20, 9], tag="stream-revisit", padform=form)
         key, iv, data = inputs(mode, seg, d, p, 0)
         drive_stream(rec, aes, bf, mode, seg, d, p, key, iv, b"", 16, None, tag="stream-empty")
         drive_stream(rec, aes, bf, mode, seg, d, p, key, iv, b"", 8192, [], tag="stream-empty")
@@ -542,10 +666,12 @@ def record_adapter(rec, r, tier):
             out, err, cls = getattr(o, fn)(data), 0, ""
         except Exception as ex:                                    # noqa
             out, err, cls = b"", 1, type(ex).__name__
-        ev = {"op": "ad.call", "key": list(key), "iv": list(iv or b""), "fn": fn, "data": list(data), "out": BL(out), "err": err, "cls": cls}
+        # data may be the very object an earlier call returned (passed on without a copy); nothing is converted before settle()
+        ev = {"op": "ad.call", "key": list(key), "iv": list(iv or b""), "fn": fn, "data": list(data) if isinstance(data, bytes) else Raw("fwd", data),
+              "out": Raw("res", out), "err": err, "cls": cls, "alias": 0}
         ev.update(extra)
-        rec.add(ev, cost=blocks(len(data)) + 2)
-        return bytes(out) if BL(out) != [-1] else b""
+        rec.add(ev, cost=blocks(rlen(data)) + 2)
+        return out if byteslike(out) else b""
 
     def datum(kind, n):
         if kind == "zeros":
@@ -572,14 +698,15 @@ def record_adapter(rec, r, tier):
                     enc2 = o2.encrypt(d)
                 except Exception as ex:                            # noqa
                     rec.add({"op": "ad.call", "key": list(key), "iv": list(iv or b""), "fn": "encrypt", "data": list(d), "out": [], "err": 1,
-                             "cls": type(ex).__name__, "hist": -1, "pos": 0, "shared": shared, "obj": 0})
+                             "cls": type(ex).__name__, "alias": 0, "hist": -1, "pos": 0, "shared": shared, "obj": 0})
                     continue
-                rec.add({"op": "ad.rt", "key": list(key), "iv": list(iv or b""), "data": list(d), "enc": BL(enc), "dec": BL(dec),
+                rec.add({"op": "ad.rt", "key": list(key), "iv": list(iv or b""), "data": list(d), "enc": Raw("res", enc), "dec": Raw("res", dec),
                          "kind": kind, "shared": shared}, cost=2 * blocks(n) + 2)
-                rec.add({"op": "ad.call", "key": list(key), "iv": list(iv or b""), "fn": "mac", "data": list(d), "out": BL(mac), "err": 0, "cls": "",
-                         "hist": -1, "pos": 2, "shared": shared, "obj": 0}, cost=blocks(n) + 2)
-                rec.add({"op": "ad.call", "key": list(key), "iv": list(iv or b""), "fn": "encrypt", "data": list(d), "out": BL(enc2), "err": 0, "cls": "",
-                         "hist": -1, "pos": 3, "shared": shared, "obj": 1 - shared}, cost=blocks(n) + 2)
+                rec.add({"op": "ad.call", "key": list(key), "iv": list(iv or b""), "fn": "mac", "data": list(d), "out": Raw("res", mac), "err": 0, "cls": "",
+                         "alias": 0, "hist": -1, "pos": 2, "shared": shared, "obj": 0}, cost=blocks(n) + 2)
+                rec.add({"op": "ad.call", "key": list(key), "iv": list(iv or b""), "fn": "encrypt", "data": list(d), "out": Raw("res", enc2), "err": 0, "cls": "",
+                         "alias": 0, "hist": -1, "pos": 3, "shared": shared, "obj": 1 - shared}, cost=blocks(n) + 2)
+                rec.settle()
     # deterministic histories on ONE object: the same inputs revisited after every other kind of call (mac after encrypt,
     # mac after mac, short mac after mac, decrypt after mac, encrypt after decrypt, ...), then once more on a fresh object
     hist = 1000000
@@ -593,12 +720,13 @@ def record_adapter(rec, r, tier):
                           ("decrypt", None), ("decrypt", None), ("mac", sh), ("encrypt", P)):
                 d = (C or bytes(16)) if d is None else d
                 out = call(o, key, iv, fn, d, hist=hist, pos=pos, shared=1, obj=0)
-                if fn == "encrypt" and d is P and out:
-                    C = out
+                if fn == "encrypt" and d is P and rlen(out):
+                    C = out                                          # the returned object itself is what decrypt gets later
                 pos += 1
             for fn, d in (("mac", P), ("encrypt", sh)):
                 call(create(key, iv), key, iv, fn, d, hist=hist, pos=pos, shared=0, obj=1)
                 pos += 1
+            rec.settle()
     # histories: two objects (equal parameters / same key other iv / unrelated), interleaved calls, recurring data
     for h in range(1500 if tier == "thorough" else 120):
         k1, iv1 = rb(r, 16), r.choice([None, bytes(16), rb(r, 16)])
@@ -617,8 +745,9 @@ def record_adapter(rec, r, tier):
             else:
                 d = r.choice(pool)
             out = call(objs[i], params[i][0], params[i][1], fn, d, hist=h, pos=pos, shared=int(variant == 0), obj=i)
-            if fn == "encrypt" and out:
-                encs[i].append(bytes(out))
+            if fn == "encrypt" and rlen(out):
+                encs[i].append(out)
+        rec.settle()
     # long data (firmware sized): encrypt / mac / decrypt of more than 256 and more than 4096 bytes, one chaining over the whole input
     hist = 2000000
     for n in ((300, 4097, 4128) if tier != "thorough" else (257, 300, 1000, 4096, 4097, 4112, 4128, 8200, 12289)):
@@ -728,6 +857,8 @@ def run(tier):
         n_feeders = rm.grp - n_mode_groups
         n_streams = record_streams(rm, r, tier, shapes)
         record_adapter(ra, r, tier)
+        for rec_ in (rc, rm, ra):
+            rec_.settle()                                            # (every driver settles its own histories; nothing may stay unconverted)
         # whole streams through OpenSSL
         oouts = list(iopool.map(lambda j: ossl(j[1], j[2], j[3], j[4], decrypt=(j[5] == "dec")), oracle_jobs))
         for (g, name, key, iv, stream, direction, tag, cost), o in zip(oracle_jobs, oouts):
@@ -838,6 +969,9 @@ def run(tier):
                 if e["op"] == "ad.call" and e.get("hist", -1) >= 0:  # the history on the two objects up to and including the call
                     data["group"] = [{k: v for k, v in x.items() if not k.startswith("_")} for x in rec.evs
                                      if x["op"] == "ad.call" and x.get("hist") == e["hist"] and x["tid"] <= tid]
+                if e["op"] in ("blk", "dblk"):                       # every call of the history on that cipher object
+                    data["group"] = [{k: v for k, v in x.items() if not k.startswith("_")} for x in rec.evs
+                                     if x["op"] == e["op"] and x.get("hist") == e.get("hist") and (id(rec), x["tid"]) not in canaries]
                 if "grp" in e:                                       # stateful: the whole life of the object up to and including the event
                     data["group"] = [{k: v for k, v in x.items() if not k.startswith("_")} for x in order[e["grp"]] if x["tid"] <= tid]
                 rep.violation(_key(clause, e), "%s event rejected by the specification: %s%s" % (
@@ -919,7 +1053,7 @@ def run(tier):
 def _redo(evs):
     """Re-execute the recorded calls on the code in /repo now; returns fresh events with the same inputs."""
     aes, bf, bc = _real()
-    out, obj, acc, objs = [], None, None, {}
+    out, obj, acc, objs, batches = [], None, None, {}, {}
     for e in evs:
         n, op = dict(e), e["op"]
         if op == "tab":
@@ -927,31 +1061,43 @@ def _redo(evs):
             n["v"] = list(w.to_bytes(4, "big")) if e["name"][0] in "TU" else [w]
         elif op == "tablen":
             n["n"] = len(getattr(aes.AES, e["name"]))
-        elif op == "blk":
-            n["ct"] = list(aes.AES(bytes(e["key"])).encrypt(bytes(e["pt"])))
-            n["dt"] = list(aes.AES(bytes(e["key"])).decrypt(n["ct"]))
-        elif op == "dblk":
-            n["pt"] = list(aes.AES(bytes(e["key"])).decrypt(bytes(e["ct"])))
+        elif op in ("blk", "dblk"):
+            hk = (op, e.get("hist"))
+            if hk not in batches:                                    # the whole history at once: all encrypts, all decrypts, then read
+                batch = [x for x in evs if x["op"] == op and x.get("hist") == e.get("hist")]
+                one = bool(e.get("one", 1))
+                a = aes.AES(bytes(e["key"]))
+                fresh = lambda: a if one else aes.AES(bytes(e["key"]))
+                args = [list(x["pt" if op == "blk" else "ct"]) for x in batch]
+                cs = [fresh().encrypt(g) for g in args] if op == "blk" else args
+                ds = [fresh().decrypt(c) for c in cs]
+                batches[hk] = {x["tid"]: (args[j], cs[j], ds[j]) for j, x in enumerate(batch)}
+            arg, c, d = batches[hk][e["tid"]]
+            n["arg"], n["alias"] = Raw("arg", arg), 0
+            if op == "blk":
+                n["ct"], n["dt"] = Raw("res", c), Raw("res", d)
+            else:
+                n["pt"] = Raw("res", d)
         elif op == "oblk":
             n["ct"] = list(ossl("aes-%d-ecb" % (8 * len(e["key"])), bytes(e["key"]), None, bytes(e["pt"])))
         elif op in ("m.new", "f.new"):
             cfg = e
             obj = mk_mode(aes, e["mode"], bytes(e["key"]), bytes(e["iv"]), e["seg"], none_iv=e.get("tag", "").endswith("-iv-none"))
             if op == "f.new":
-                obj = (bf.Encrypter if e["dir"] == "enc" else bf.Decrypter)(obj, padding=e["pad"])
-            acc = [b"", b"", 0]
+                obj = (bf.Encrypter if e["dir"] == "enc" else bf.Decrypter)(obj, padding=pad_option(bf, e["pad"], e.get("padform", "const")))
+            acc = [b"", [], 0]
         elif op in ("m.call", "f.feed"):
             try:
                 if op == "m.call":
                     o = (obj.encrypt if e["dir"] == "enc" else obj.decrypt)(bytes(e["data"]))
                 else:
                     o = obj.feed(None if e["fin"] else bytes(e["data"]))
-                n["out"], n["err"], n["cls"] = list(o), 0, ""
+                n["out"], n["err"], n["cls"], n["alias"] = Raw("res", o), 0, "", 0
                 if not (op == "f.feed" and acc[2]):
                     acc[0] += bytes(e["data"])
-                    acc[1] += bytes(o)
+                    acc[1].append(o)
             except Exception as ex:                                # noqa
-                n["out"], n["err"], n["cls"] = [], 1, type(ex).__name__
+                n["out"], n["err"], n["cls"], n["alias"] = [], 1, type(ex).__name__, 0
                 if op == "f.feed" and not (e["fin"] == 0 and e["data"] == [120] and acc[2] == 2):
                     acc[2] = 1
             if op == "f.feed" and e["fin"] and not n["err"]:
@@ -959,13 +1105,15 @@ def _redo(evs):
         elif op == "s.run":
             tmp = Rec()
             sizes = None if e["src"] == "bytesio" else [len(x) for x in e["reads"] if x]
-            drive_stream(tmp, aes, bf, e["mode"], e["seg"], e["dir"], e["pad"], bytes(e["key"]), bytes(e["iv"]), bytes(e["data"]), e["bs"], sizes, tag=e.get("tag", ""))
+            drive_stream(tmp, aes, bf, e["mode"], e["seg"], e["dir"], e["pad"], bytes(e["key"]), bytes(e["iv"]), bytes(e["data"]), e["bs"], sizes,
+                         tag="", padform=e.get("padform", "const"))
+            tmp.evs[0]["tag"] = e.get("tag", "")
             n = {k: v for k, v in tmp.evs[0].items() if not k.startswith("_")}
             n["grp"], n["tid"] = e["grp"], e["tid"]
         elif op == "m.end":
-            n["stream"], n["outs"] = list(acc[0]), list(acc[1])
+            n["stream"], n["outs"] = list(acc[0]), Raw("cat", *acc[1])
         elif op == "f.end":
-            n["outs"], n["err"] = list(acc[1]), 1 if acc[2] == 1 else 0
+            n["outs"], n["err"] = Raw("cat", *acc[1]), 1 if acc[2] == 1 else 0
         elif op == "m.ossl":
             n["ossl"] = list(ossl(e["cipher"], bytes(cfg["key"]), None if cfg["mode"] == "ecb" else bytes(cfg["iv"]), bytes(e["stream"]), decrypt=(e["dir"] == "dec")))
         elif op == "ad.call":
@@ -973,14 +1121,14 @@ def _redo(evs):
             if k not in objs:
                 objs[k] = bc.create_AES128(bytes(e["key"]), bytes(e["iv"]) if e["iv"] else None)
             try:
-                n["out"], n["err"], n["cls"] = list(getattr(objs[k], e["fn"])(bytes(e["data"]))), 0, ""
+                n["out"], n["err"], n["cls"], n["alias"] = Raw("res", getattr(objs[k], e["fn"])(bytes(e["data"]))), 0, "", 0
             except Exception as ex:                                # noqa
-                n["out"], n["err"], n["cls"] = [], 1, type(ex).__name__
+                n["out"], n["err"], n["cls"], n["alias"] = [], 1, type(ex).__name__, 0
         elif op == "ad.rt":
             o1 = bc.create_AES128(bytes(e["key"]), bytes(e["iv"]) if e["iv"] else None)
             o2 = o1 if e.get("shared") else bc.create_AES128(bytes(e["key"]), bytes(e["iv"]) if e["iv"] else None)
-            n["enc"] = list(o1.encrypt(bytes(e["data"])))
-            n["dec"] = list(o2.decrypt(bytes(n["enc"])))
+            enc = o1.encrypt(bytes(e["data"]))
+            n["enc"], n["dec"] = Raw("res", enc), Raw("res", o2.decrypt(enc))
         elif op == "pad":
             n["out"] = list(bc.pad(bytes(e["data"])))
         elif op == "unreg":
@@ -995,6 +1143,7 @@ def _redo(evs):
             finally:
                 bc.register_AES128(saved)
         out.append(n)
+    settle_events(out)                                               # nothing was read from a returned object before this point
     return out
 
 
